@@ -250,7 +250,8 @@ def check(col: Collector, tier: str):
     for r in ("r5", "r7"):
         ct = runner_source(REPO / f"func_adl_xAOD/template/cms/{r}/runner.sh")
         cfg = (REPO / f"func_adl_xAOD/template/cms/{r}/analyzer_cfg.py").read_text()
-        ok = f"CMS_OUTPUT_FILE={fname}" in ct and f"destination=$output_dir/{fname}" in ct and 'os.environ["CMS_OUTPUT_FILE"]' in cfg \
+        ctq = re.sub(r'(?m)^(\s*\w+=)"([^\s"`]*)"\s*$', r"\1\2", ct)          # quotes around a whole assigned value do not matter
+        ok = f"CMS_OUTPUT_FILE={fname}" in ctq and f"destination=$output_dir/{fname}" in ctq and 'os.environ["CMS_OUTPUT_FILE"]' in cfg \
             and "fileName=cms.string(output_file)" in cfg
         col.add("C03.R6", f"runner:cms/{r}", "job-output-and-delivery-name", ok, f"CMS job must write and deliver {fname}", f"func_adl_xAOD/template/cms/{r}/runner.sh")
     ex = repo.function("_extract_result_TTree")
